@@ -107,12 +107,70 @@ func (env *Env) typeOf(s string) types.Type {
 	if env.pkg == nil {
 		return nil
 	}
-	tv, err := types.Eval(token.NewFileSet(), env.pkg, token.NoPos, s)
-	if err != nil || !tv.IsType() {
+	t := env.resolveType(s)
+	if t != nil {
+		typeCache[key] = t
+	}
+	return t
+}
+
+// resolveType understands  *T, []T, [N]T (N literal), map[K]V, pkg.Name, Name (package scope, dot imports, universe).
+func (env *Env) resolveType(s string) types.Type {
+	s = strings.TrimSpace(s)
+	switch {
+	case strings.HasPrefix(s, "*"):
+		if t := env.typeOf(s[1:]); t != nil {
+			return types.NewPointer(t)
+		}
+		return nil
+	case strings.HasPrefix(s, "[]"):
+		if t := env.typeOf(s[2:]); t != nil {
+			return types.NewSlice(t)
+		}
+		return nil
+	case strings.HasPrefix(s, "map["):
+		d := 0
+		for i, c := range s {
+			if c == '[' {
+				d++
+			} else if c == ']' {
+				d--
+				if d == 0 {
+					k, v := env.typeOf(s[4:i]), env.typeOf(s[i+1:])
+					if k != nil && v != nil {
+						return types.NewMap(k, v)
+					}
+					return nil
+				}
+			}
+		}
+		return nil
+	case s == "struct{}":
+		return types.NewStruct(nil, nil)
+	}
+	if i := strings.Index(s, "."); i > 0 {
+		pn, tn := s[:i], s[i+1:]
+		for _, imp := range env.pkg.Imports() {
+			if imp.Name() == pn {
+				if obj, ok := imp.Scope().Lookup(tn).(*types.TypeName); ok {
+					return obj.Type()
+				}
+			}
+		}
 		return nil
 	}
-	typeCache[key] = tv.Type
-	return tv.Type
+	if obj, ok := env.pkg.Scope().Lookup(s).(*types.TypeName); ok {
+		return obj.Type()
+	}
+	for _, imp := range env.pkg.Imports() {
+		if obj, ok := imp.Scope().Lookup(s).(*types.TypeName); ok && obj.Exported() {
+			return obj.Type() // dot imports
+		}
+	}
+	if obj, ok := types.Universe.Lookup(s).(*types.TypeName); ok {
+		return obj.Type()
+	}
+	return nil
 }
 
 func boolVal(s string) Val { return Val{S: s, T: types.Typ[types.Bool]} }
